@@ -1,6 +1,7 @@
 package main
 
 import (
+	"strconv"
 	"bytes"
 	"encoding/json"
 	"flag"
@@ -14,6 +15,22 @@ import (
 
 func init() {
 	register("cmp-run", cmpRun)
+	register("bound-grid", boundGrid)
+}
+
+// boundGrid prints the code's CompressBlockBound(n) for every n given on the command line
+// (C01: compared with BoundLemma!WorstCaseSize by the check).
+func boundGrid(args []string) error {
+	out := make(map[string]int, len(args))
+	for _, a := range args {
+		n, err := strconv.Atoi(a)
+		if err != nil {
+			return err
+		}
+		out[a] = lz4.CompressBlockBound(n)
+	}
+	printJSON(out)
+	return nil
 }
 
 type cmpCall struct {
@@ -79,7 +96,7 @@ func (cs *compressorSet) one(id, idx int, c cmpCall, ar *arena) rec {
 	srcCopy := append([]byte(nil), src...)
 	n, err, p := cs.call(c, src, dst)
 	e := rec{"ev": "compress", "case": id, "idx": idx, "kind": c.Obj[0], "obj": c.Obj[1], "depth": c.Depth,
-		"srcLen": len(src), "dstLen": dstLen, "bound": ref.CompressBound(len(src)), "n": n, "err": err != nil, "panicked": p,
+		"srcLen": len(src), "dstLen": dstLen, "bound": ref.CompressBound(len(src)), "realBound": lz4.CompressBlockBound(len(src)), "n": n, "err": err != nil, "panicked": p,
 		"canary": ar.intact(dstLen), "srcok": bytes.Equal(src, srcCopy), "srcid": shaID(src)}
 	ok := p == "" && err == nil && n > 0 && n <= dstLen
 	if !ok {
